@@ -70,12 +70,14 @@ type Ctx struct {
 
 	// post-lexing symbolisation
 	Placeholders map[string]value // exact token literal -> replacement string value
+	TypePlaceholders map[string][2]value // exact token literal -> (type, literal) replacement
 	PlaceholderRe *regexp.Regexp  // pattern of placeholders inside string literals
 	LineMap      func(line int) value
 	SymbolizeTokens bool
 
 	PermuteMaps bool
 	MapSitePermute map[string]bool
+	MapSitesSeen   map[string]int // range-over-map sites reached on this path -> largest map size
 
 	Fuel      int64
 	Steps     int64
